@@ -43,6 +43,9 @@ def cases(rng, tier):
         out.append({"wgsl": W.diamond_program(rng, "global").render(), "family": "diamond_across_stages", "opts": {}, "tags": []})
         if i % 2 == 0:
             out.append({"wgsl": W.random_program(rng).render(), "family": "call_graph", "opts": {}, "tags": []})
+    # many functions: a resource reached only through a helper with a large handle must still be visible to its stage
+    for nh in ((70, 300) if tier != "thorough" else (70, 130, 300, 600)):
+        out.append({"wgsl": W.many_functions_program(nh).render(), "family": "many_functions", "opts": {}, "tags": []})
     return out
 
 
